@@ -50,7 +50,7 @@ ASSUMPTIONS = [
 
 
 def cfg(tier):
-    return Cfg(engines=(0,), max_ops=8 if tier == "quick" else 14, p_binary=0.22)
+    return Cfg(engines=(0,), max_ops=8 if tier == "quick" else 14, p_binary=0.22, avoid=frozenset(["D9", "D10", "D11"]))
 
 
 def budget(tier):
